@@ -34,9 +34,12 @@ def run(ck):
     ck.run_rule(h4_keys)
     ck.run_rule(h6_single_source)
     # "consumers keyed by the hash": the table answers a probe only under equality of the full 64-bit key and routes by it (C15's T1, T2)
-    from .c15 import t1_key_check, t2_routing
+    from .c15 import t1_key_check, t2_routing, t3_never_emptied, t4_eviction
     ck.run_rule(t1_key_check)
     ck.run_rule(t2_routing)
+    # ... and every stored entry sits under its own key: slots are only ever written (key, entry) together (C15's T3, T4)
+    ck.run_rule(t3_never_emptied)
+    ck.run_rule(t4_eviction)
 
 
 # -------------------------------------------------------------------------------------------------
